@@ -54,7 +54,9 @@ CLAIMED = {
                  'for every list of levels with well-formed templates and an aromaticity correction that changes flags and '
                  'orders only (the recorded contract of the external call), every element of resolve_iter has fine keys '
                  'exactly 0..n-1 and every fine node is a member of, and listed under, at least one coarse node of that step; '
-                 'L-restore applies level-wise. '
+                 'L-restore applies level-wise. Memberships compose (C06_every_atom_stems_from_base): every atom of every level '
+                 'traces, through the membership lists of the successive levels, down to a node of the original base graph; the '
+                 'coarse graph of each later level has exactly the keys of the previous fine graph in its order (C06_next_coarse_keys). '
                  'End-to-end equivalence with the flattened description is validated by correspondence + oracle on '
                  'generated hierarchical groupings (partial: not proved).'),
         'note': RESOLVE_NOTE,
@@ -88,7 +90,9 @@ CLAIMED = {
                  'two different atoms of the squashed molecule are bonded exactly when some bond of the molecule before squashing joins '
                  'an atom merged into the one with an atom merged into the other — the quotient by the merges, every bond of a removed '
                  'atom inherited by the atom that stands for it (rep_cons: the representative map composes merge by merge; '
-                 'contract_adj: adjacency after one contraction; loop invariant QInv). Tied to the code by exact differential '
+                 'contract_adj: adjacency after one contraction; loop invariant QInv). Membership for every sequence of merges '
+                 '(C10_class_membership): the atom that finally stands for an atom lists every coarse node and every template position '
+                 'that atom had when squashing started, however long the chain of merges that removed it (loop invariant MInv). Tied to the code by exact differential '
                  'execution on generated overlapping descriptions (incl. atoms shared by 3-4 fragments).'),
         'note': RESOLVE_NOTE + 'Which of two parallel bonds keeps its order, and the equivalence with disjoint descriptions, are validated by correspondence and oracle (partial).',
         'design': '§7 C10',
@@ -139,7 +143,10 @@ CLAIMED.update({
                  'result carries exactly the annotation values the dialect (C14) reads from the i-th node text. Rings inside '
                  'branches and annotations inside nodes: ring parity law, documented examples by kernel evaluation; their '
                  'unbounded statement is validated by correspondence of the faithful model with the code on grammar ASTs plus an '
-                 'independent denotation oracle (partial).'),
+                 'independent denotation oracle (partial). The tie of the reader model to the code draws part of its inputs '
+                 'straight from the grammar C04_read_ring quantifies over (suite ringspec: any marker list per node, any symbol in '
+                 'front of opening AND closing markers, digit and %dd spellings mixed) with a Python mirror of the Lean denotation '
+                 'ringGraph as oracle.'),
         'note': READ_NOTE,
         'design': '§7 C04',
     },
